@@ -154,10 +154,12 @@ func c17SlotsCase(t *rapid.T, test string, ledger bool) {
 				owners[e.Owner] = true
 			}
 			coins := append([]uint64{0}, g.V.Bancor...)
+			_ = coins
 			for o := range owners {
-				for _, coin := range coins {
-					if it := wl.Get(o, X, types.CoinID(coin)); it != nil && it.Value.Sign() > 0 {
-						c17Add(pre.wait, c17Key{o, coin}, it.Value)
+				// VerifPeek: the look-up must not load the owner's waitlist into the node's cache
+				for _, it := range wl.VerifPeek(o) {
+					if uint64(it.CandidateId) == xID && it.Value.Sign() > 0 {
+						c17Add(pre.wait, c17Key{o, uint64(it.Coin)}, it.Value)
 					}
 				}
 			}
@@ -417,6 +419,12 @@ func c17SlotsCase(t *rapid.T, test string, ledger bool) {
 		for i := 0; i < nb && !r.Halted; i++ {
 			if !n.App.VerifStateDeliver().Candidates.Exists(X) {
 				break
+			}
+			if i > 0 && sim.U(t, "restart", 4) == 0 {
+				// cold caches at the next recalculation: kicked stakes must join the stored waitlists
+				n.Restart()
+				r.Steps = append(r.Steps, "RESTART")
+				sim.S.Label("C17/slots/restarts")
 			}
 			if !r.Begin(t) {
 				violation(t, "panic", r, "%s", r.PanicReport())
